@@ -265,6 +265,38 @@ func c17TwoRoles(first, second string, deaf bool, ek int) pxScenario {
 		Tags: []string{"two-roles", "first=" + first, "then=" + second, fmt.Sprintf("ctx-ignoring=%v", deaf), fmt.Sprintf("err=%d", ek)}}
 }
 
+// n dials hanging at once (n distinct unknown destinations whose newConnection does not return), then an envelope for
+// one more unknown destination, then live p <-> q traffic and an AddClient: none of it may wait for the dials
+func c17HangingDials(n int, variant int) pxScenario {
+	b := &pxBuilder{tok: 100}
+	b.add(att(1)...)
+	b.add(att(2)...)
+	b.add(b.send(1, 2))
+	for k := 0; k < n; k++ {
+		from := int64(1 + k%2)
+		b.add(b.send(from, int64(20+k))) // dial of n<20+k> starts and hangs
+		if k%3 == 2 {
+			b.add(b.send(2, 1))
+		}
+	}
+	b.add(b.send(1, int64(20+n))) // one more unknown destination
+	b.add(b.send(1, 2))
+	b.add(b.send(2, 1))
+	b.add(att(3)...) // AddClient while all those dials hang
+	b.add(b.send(3, 1))
+	b.add(b.send(2, 3))
+	if variant%2 == 1 {
+		b.add(b.send(3, int64(21+n))) // and yet another one
+		b.add(b.send(1, 2))
+	}
+	// some dials are answered at last
+	b.add(PAct{Op: "dial", N: 20, M: "ok"})
+	b.add(PAct{Op: "dial", N: int64(20 + n), M: "fail"})
+	b.add(b.send(1, 20))
+	b.add(b.send(2, 1))
+	return pxScenario{Icp: 0, ByRef: variant%2 == 0, Steps: b.steps, Tags: []string{"hanging-dials", fmt.Sprintf("hanging=%d", n)}}
+}
+
 // the dial-error role with every error value (and the name dialled again)
 func c17DialErr(ek int) pxScenario {
 	b := &pxBuilder{tok: 100}
@@ -392,6 +424,11 @@ func c17Scenarios() []pxScenario {
 	}
 	for ek := 0; ek < pxNumErrKinds; ek++ {
 		out = append(out, c17DialErr(ek))
+	}
+	for _, n := range []int{1, 2, 3, 4, 5, 8, 9, 16, 17} {
+		for v := 0; v < 2; v++ {
+			out = append(out, c17HangingDials(n, v))
+		}
 	}
 	out = append(out, forged...)
 	out = append(out, bases...)
